@@ -116,7 +116,13 @@ inductive StepR (b : QBeh) (c : QCfg) : QCfg → Prop
       StepR b c { c with stack := .done :: below }
   | iter {v key arg rest below} :
       c.stack = .prog (.ret v) :: .iter key arg rest :: below →
+      b.cont arg = true →
       StepR b c (nextListener b c key arg rest below)
+  /-- `CanContinueInvoking` said no after a listener returned: the dispatch ends -/
+  | iterStop {v key arg rest below} :
+      c.stack = .prog (.ret v) :: .iter key arg rest :: below →
+      b.cont arg = false →
+      StepR b c { c with stack := .done :: below }
   | predDispatch {v mode s rest kept idle below e} :
       c.stack = .prog (.ret v) :: .proc mode (s :: rest) kept idle .pred :: below →
       s.ev = some e →
@@ -158,7 +164,10 @@ theorem step_stepR {b : QBeh} {c c' : QCfg} (h : step b c = some c') : StepR b c
     cases v <;> simp at h <;> subst h
     · exact .filtFalse hst
     · exact .filtTrue hst
-  · next hst => cases h; exact .iter hst
+  · next v key arg rest below hst =>
+    split at h
+    · next hc => cases h; exact .iter hst hc
+    · next hc => cases h; exact .iterStop hst (by simpa using hc)
   · next v mode s rest kept idle below hst =>
     split at h
     · next p e hev =>
